@@ -76,6 +76,12 @@ def known_members(prop):
     return out
 
 
+def corpus_cpus():
+    """CPUs that have a statement corpus; NV_SWEEP_ONLY=<cpu,cpu> restricts them (development aid, never set by a check)"""
+    only = os.environ.get("NV_SWEEP_ONLY")
+    return [c for c in S.cpus() if not only or c in only.split(",")]
+
+
 def cpu_table(ctx):
     """[(name, bytes_per_address)] of every cpu_list entry, from the harness"""
     a = ctx.impl(["cpus"])[0]
@@ -198,7 +204,7 @@ def c01_correspondence(ctx, corr):
 def c01_oracle(ctx, orc):
     thorough = not ctx.quick()
     lines, meta = [], []
-    for cpu in S.cpus():
+    for cpu in corpus_cpus():
         for st in S.statements(cpu):
             for v in variants(st, thorough):
                 lines.append("asm1 %s %x - %s" % (cpu, A0, nvlib.hexs(v)))
@@ -248,7 +254,7 @@ def c01_oracle(ctx, orc):
             fail(cpu, "reasm-crash", st, v, "ok/err", a[:160])
         else:
             fail(cpu, "diff", st, v, "bytes %s again (or a rejection)" % b.hex(),
-                 "disassembly '%s' assembles to %s" % (txt.decode("latin-1"), a))
+                 "%s disassembles to '%s', which assembles to %s" % (b.hex(), txt.decode("latin-1"), a))
     orc["failures"].extend(fails.values())
     orc["stats"]["sweep_c01"] = {"cpus": len(S.cpus()), "statements_and_variants": len(lines), "accepted": accepted,
                                  "walk_exact": exact, "texts_reassembled_same": same, "texts_rejected": rej,
@@ -292,7 +298,7 @@ def c07_correspondence(ctx, corr):
 def c07_oracle(ctx, orc):
     thorough = not ctx.quick()
     lines, meta = [], []
-    for cpu in S.cpus():
+    for cpu in corpus_cpus():
         for st in S.statements(cpu):
             lines.append("asm1 %s %x - %s" % (cpu, A0, nvlib.hexs(st)))
             meta.append((cpu, st))
